@@ -6,7 +6,8 @@ use proptest::prelude::*;
 
 pub const TOPICS: &[&str] = &["a", "a/b", "a/c", "b", "b/c", "a/b/c", "é/x", "$SYS/x"];
 pub const FILTERS: &[&str] = &["a", "a/b", "a/+", "a/#", "#", "+/b", "+", "b/#", "é/+", "a/b/c", "+/+"];
-pub const GROUP_FILTERS: &[&str] = &["$share/g1/a/#", "$share/g1/a/b", "$share/g2/#", "$share/g2/a/+"];
+/// one filter per share name (a share name used with two different filters is region R14)
+pub const GROUP_FILTERS: &[&str] = &["$share/g1/a/#", "$share/g2/b/#"];
 
 #[derive(Clone, Debug)]
 pub struct GenCfg {
@@ -217,7 +218,13 @@ fn subscribe_strategy(g: &GenCfg, n: usize) -> BoxedStrategy<Op> {
         pct(g.p_unnotified),
     )
         .prop_map(|(c, mut filters, with_id, id, unnotified)| {
-            filters.dedup_by(|a, b| a.0 == b.0);
+            let mut uniq: Vec<(String, u8)> = Vec::new();
+            for f in filters.drain(..) {
+                if !uniq.iter().any(|u| u.0 == f.0) {
+                    uniq.push(f);
+                }
+            }
+            let filters = uniq;
             Op::Subscribe {
                 c,
                 filters,
@@ -324,8 +331,12 @@ pub fn chunk_strategy(g: &GenCfg, n: usize) -> BoxedStrategy<Vec<Op>> {
                     let mut v = Vec::with_capacity(k + 1);
                     for i in 0..k {
                         let mut q = p.clone();
-                        if let Op::Publish { notify, .. } = &mut q {
+                        if let Op::Publish { notify, size, .. } = &mut q {
                             *notify = notify_each || i + 1 == k;
+                            // many indistinguishable empty messages on one topic tell nothing
+                            if *size == 0 {
+                                *size = 6;
+                            }
                         }
                         v.push(q);
                     }
